@@ -148,7 +148,13 @@ def decPrepared (j : Json) (errCap : Nat) : Option Prepared :=
   let nodes : List (Node String) := (getArr j "nodes").map (fun n =>
     { id := getStr n "id", status := .waiting,
       out := (getArr n "out").map (fun d => let p := decPair d; (p.1, decDep p.2)), res := [] })
-  let edges := (getArr j "edges").map decPair
+  let edges0 := (getArr j "edges").map decPair
+  -- the dependency type of an edge is the one recorded in the target's outstanding list (nothing is resolved yet)
+  let edges : List (String × String × Dep) := edges0.map (fun e =>
+    let d := match nodes.find? (fun n => n.id = e.2) with
+      | some n => (alookup e.1 n.out).getD .and
+      | none => .and
+    (e.1, e.2, d))
   let itemsJ := objFields (getObj j "items")
   let items : List (String × Option Item) := itemsJ.map (fun p =>
     let d := getObj p.2 "data"
